@@ -11,7 +11,7 @@ ID = 'C08'
 LEVEL = 'exploration'
 RULE = ('grouping key lists of length 1..2 over {ext, dir, is_dir, mode, uid, length(name)} (6 + 30 ordered pairs; thorough adds the 120 ordered triples) x '
         'aggregate lists {count; sum; count+sum+min+max; avg} x key-first/aggregate-first select order x WHERE on/off x '
-        'ORDER BY in {none, key asc/desc, aggregate asc/desc, positional} x 3 trees with 1..5 distinct key values incl. '
+        'ORDER BY in {none, key asc/desc, aggregate asc/desc, positional, two-key lists} x WHERE incl. one that matches nothing x 3 trees with 1..5 distinct key values incl. '
         'the empty extension; non-trivial = at least two groups')
 ASSUMPTIONS = ['group rows are compared as a set unless ORDER BY is given; ties under ORDER BY may come in any order',
                'expected per-group aggregates come from lstat of the generated tree (exact integers / fractions); the '
@@ -29,7 +29,7 @@ TREES = {
              'p': D({'a.txt': F(8), 'q.rs': F(9, uid=1000), 'r': D({'a.txt': F(100), 'zz.md': F(11), 'y': F(12, mode=0o755)})}),
              's': D({'t.md': F(2), 'uu.md': F(2, uid=1000, mode=0o640)}, mode=0o700)},
 }
-WHERES = [(None, lambda e: True), ('size gt 2', lambda e: e['size'] > 2)]
+WHERES = [(None, lambda e: True), ('size gt 2', lambda e: e['size'] > 2), ('size gt 99999999', lambda e: False)]
 
 
 def bounds(tier):
@@ -55,6 +55,10 @@ def orders(keys, aggs, ncols, aggfirst):
     # positional: the first aggregate column
     pos = 1 if aggfirst else len(keys) + 1
     yield '%d desc' % pos
+    # two sort keys: aggregate first (ties among groups are resolved by the key) and key first
+    yield aggs[0] + ' desc, ' + keys[0]
+    yield aggs[0] + ', ' + keys[0] + ' desc'
+    yield keys[0] + ' desc, ' + aggs[0]
 
 
 def groups(tier, seed):
@@ -188,15 +192,26 @@ def eval_group(env, group, tier):
                 continue
             # ordering
             if c['order']:
-                ob = c['order']
-                desc = ob.endswith(' desc')
-                col = ob[:-5] if desc else ob
-                if col.isdigit():
-                    col = cols[int(col) - 1]
-                seq = [sort_key(col, r[cols.index(col)]) for r in rows]
-                srt = all((seq[i] >= seq[i + 1]) if desc else (seq[i] <= seq[i + 1]) for i in range(len(seq) - 1))
-                if not srt:
-                    viol('group-order', {'column': col, 'desc': desc, 'sequence': [r[cols.index(col)] for r in rows]})
+                spec = []
+                for part in c['order'].split(', '):
+                    desc = part.endswith(' desc')
+                    col = part[:-5] if desc else part
+                    if col.isdigit():
+                        col = cols[int(col) - 1]
+                    spec.append((col, desc))
+                bad_pair = None
+                for i in range(len(rows) - 1):
+                    for col, desc in spec:
+                        x, y = sort_key(col, rows[i][cols.index(col)]), sort_key(col, rows[i + 1][cols.index(col)])
+                        if x == y:
+                            continue
+                        if (x < y) == desc:
+                            bad_pair = (col, rows[i], rows[i + 1])
+                        break
+                    if bad_pair:
+                        break
+                if bad_pair:
+                    viol('group-order', {'order': c['order'], 'column': bad_pair[0], 'pair': [bad_pair[1], bad_pair[2]]})
                     continue
             res.update(status='ok', sig=tuple(sorted(rows)))
             outs.append(res)
